@@ -80,6 +80,32 @@ def attribute_annotations(
     return attributes
 
 
+def _resolved_type_argument(
+    argument: Any,
+    /,
+    type_parameters: dict[str, Any],
+) -> Any:
+    # replace type variables with their current values, also those nested within the argument
+    if isinstance(argument, TypeVar):
+        return type_parameters.get(
+            argument.__name__,
+            argument.__bound__ or Any,
+        )
+
+    if parameters := getattr(argument, "__parameters__", None):
+        return argument[
+            tuple(
+                _resolved_type_argument(
+                    parameter,
+                    type_parameters=type_parameters,
+                )
+                for parameter in parameters
+            )
+        ]
+
+    return argument
+
+
 def _resolve_attribute_annotation(  # noqa: C901, PLR0911, PLR0912, PLR0913
     annotation: Any,
     /,
@@ -144,12 +170,10 @@ def _resolve_attribute_annotation(  # noqa: C901, PLR0911, PLR0912, PLR0913
                         type_parameters={
                             **type_parameters,
                             **{
-                                parameter.__name__: type_parameters.get(
-                                    argument.__name__,
-                                    argument.__bound__ or Any,
+                                parameter.__name__: _resolved_type_argument(
+                                    argument,
+                                    type_parameters=type_parameters,
                                 )
-                                if isinstance(argument, TypeVar)
-                                else argument
                                 for parameter, argument in zip(
                                     alias.__type_params__,
                                     get_args(generic_alias),
@@ -168,13 +192,11 @@ def _resolve_attribute_annotation(  # noqa: C901, PLR0911, PLR0912, PLR0913
                 # check if we can resolve it as generic
                 case parametrized if issubclass(parametrized, Generic):
                     parametrized_type: Any = parametrized.__class_getitem__(  # pyright: ignore[reportUnknownMemberType, reportAttributeAccessIssue]
-                        *(
-                            type_parameters.get(
-                                arg.__name__,
-                                arg.__bound__ or Any,
+                        tuple(
+                            _resolved_type_argument(
+                                arg,
+                                type_parameters=type_parameters,
                             )
-                            if isinstance(arg, TypeVar)
-                            else arg
                             for arg in get_args(generic_alias)
                         )
                     )
